@@ -1454,6 +1454,42 @@ def walk_inl(unit, node, depth=2, _seen=None, exclude=(), max_nodes=400):
                         yield y
 
 
+def with_conditions(node, stack=()):
+    """yield (n, stack) for every node below `node`; stack = tuple of ("if", cond, "t"|"e") / ("arm", match_node, arm) / ("guard", expr) enclosing n"""
+    if isinstance(node, list):
+        for x in node:
+            for r in with_conditions(x, stack):
+                yield r
+        return
+    if not isinstance(node, dict):
+        return
+    yield node, stack
+    k = node.get("k")
+    if k == "if":
+        for r in with_conditions(node.get("c"), stack):
+            yield r
+        for r in with_conditions(node.get("t"), stack + (("if", node.get("c"), "t"),)):
+            yield r
+        if node.get("e") is not None:
+            for r in with_conditions(node.get("e"), stack + (("if", node.get("c"), "e"),)):
+                yield r
+        return
+    if k == "match":
+        for r in with_conditions(node.get("s"), stack):
+            yield r
+        for arm in node.get("arms", []):
+            st2 = stack + (("arm", node, arm),)
+            if arm.get("g") is not None:
+                for r in with_conditions(arm["g"], st2):
+                    yield r
+            for r in with_conditions(arm.get("b"), st2):
+                yield r
+        return
+    for c in children(node):
+        for r in with_conditions(c, stack):
+            yield r
+
+
 class SubCheck:
     """Run another property's rule module inside a check, keeping only some of its rules under a new rule id."""
 
